@@ -25,6 +25,22 @@ var solvers = []SolverCfg{
 	{"cvc5-1.0.3", []string{"cvc5", "--lang=smt2"}},
 }
 
+// groundOnly: drop every quantified assumption (used to find candidate counterexamples quickly; a candidate is
+// only reported after it has been confirmed by running the real code).
+var groundOnly bool
+
+func hasQuant(t *Term) bool {
+	if t.Op == "forall" || t.Op == "exists" {
+		return true
+	}
+	for _, a := range t.Args {
+		if hasQuant(a) {
+			return true
+		}
+	}
+	return false
+}
+
 func (prog *Program) buildSMT(o *Obligation, axioms []*Term, wantModel bool) string {
 	if o.Raw != "" {
 		raw := o.Raw
@@ -60,12 +76,21 @@ func (prog *Program) buildSMT(o *Obligation, axioms []*Term, wantModel bool) str
 	b.WriteString("(set-logic ALL)\n")
 	c.header(&b)
 	for _, t := range bg {
+		if groundOnly && hasQuant(t) {
+			continue
+		}
 		b.WriteString("(assert " + t.String() + ")\n")
 	}
 	for _, t := range axioms {
+		if groundOnly && hasQuant(t) {
+			continue
+		}
 		b.WriteString("(assert " + t.String() + ")\n")
 	}
 	for _, t := range o.Assume {
+		if groundOnly && hasQuant(t) {
+			continue
+		}
 		b.WriteString("(assert " + t.String() + ")\n")
 	}
 	if o.Cover {
